@@ -108,6 +108,10 @@ async def _main(case, obs, loop, net):
     c = Cluster(loop, net, n_nodes=cl["nodes"])
     obs.cluster = c
     c.add_topic("t0", cl["partitions"], leaders=cl.get("leaders"))
+    if cl.get("second_topic"):
+        # a second topic (send partition index >= 100 addresses t1): lets one AddPartitionsToTxn carry an
+        # unauthorized topic next to authorized ones
+        c.add_topic("t1", 1, leaders=cl.get("leaders"))
     c.txn_coord_node = cl.get("txn_coord", 0) % cl["nodes"]
     c.group_coord_node = cl.get("group_coord", 0) % cl["nodes"]
     if case.get("marker_delays"):
@@ -171,7 +175,10 @@ async def _main(case, obs, loop, net):
                                      "offsets": None, "sends": []})
                     r["txn"] = proc.txn_no
             elif kind == "send":
+                topic = "t0"
                 part = st[1] % cl["partitions"]
+                if st[1] >= 100 and cl.get("second_topic"):
+                    topic, part = "t1", 0
                 counters["send"] += 1
                 sid = counters["send"]
                 value = b"%d.%d." % (proc.txn_no or 0, sid) + b"x" * st[2]
@@ -180,7 +187,7 @@ async def _main(case, obs, loop, net):
                 obs.sends.append(srec)
 
                 async def do_send():
-                    fut = await p.send("t0", value, partition=part)
+                    fut = await p.send(topic, value, partition=part)
                     track_send(proc, part, fut, srec)
                     if st[3]:
                         try:
@@ -358,9 +365,10 @@ def run(case):
     obs.vtime = loop._vtime
     c = obs.cluster
     if c is not None:
-        for pl in c.topics.get("t0", []):
-            obs.final[tpk("t0", pl.partition)] = {"decoded": pl.decoded(), "hw": pl.hw, "lso": pl.lso,
-                                                  "log_start": pl.log_start, "end": pl.next_offset}
+        for tname in ("t0", "t1"):
+            for pl in c.topics.get(tname, []):
+                obs.final[tpk(tname, pl.partition)] = {"decoded": pl.decoded(), "hw": pl.hw, "lso": pl.lso,
+                                                       "log_start": pl.log_start, "end": pl.next_offset}
         for gid, g in c.groups.groups.items():
             obs.group_offsets[gid] = {"%s:%d" % k: v[0] for k, v in g.offsets.items()}
     simloop.finish(loop)
